@@ -5,7 +5,7 @@ from mirsym.values import *
 from mirsym.explore import Panic
 from mirsym import models_typst as T
 from mirsym.models_std import STD, Str, sym_str
-from . import libskel, kern, comments, lists, flows, markup, tables
+from . import libskel, kern, comments, lists, flows, markup, tables, mathargs, chains
 from .common import *
 
 EXPLANATION = (
@@ -16,7 +16,7 @@ EXPLANATION = (
     "strip_trailing_whitespace, has_linebreak, count_linebreaks (strings <= N code points), comment / block_comment / align_multiline / "
     "align_multiline_simple / get_follow_leading (comments of <= M interior code points), convert_space / convert_parbreak, "
     "ListStylist and convert_flow_like_iter over child sequences <= K, optional_paren, convert_table for every 64-bit column count "
-    "(0 included) and up to 3/4 cells. Panics and hangs inside the parser, the pretty "
+    "(0 included) and up to 3/4 cells, convert_args_in_math and the dot-chain converters over their child sequences. Panics and hangs inside the parser, the pretty "
     "renderer and the tree-walking code not listed are outside the claim, as is 'bounded time'.")
 
 
@@ -66,6 +66,10 @@ def run(S):
     f4 = flows.explore_flow(S, 3 if S.tier == 'quick' else 4, want=('C05',))
     f4 += lists.explore(S, 2 if S.tier == 'quick' else 3, want=('C05',))
     lists.report(S, 'C05', f4)
+    f6 = mathargs.explore(S, 3 if S.tier == 'quick' else 4, want=('C05',))
+    mathargs.report(S, 'C05', f6)
+    f7 = chains.explore(S, want=('C05',))
+    chains.report(S, 'C05', f7)
     f5 = tables.explore(S, 3 if S.tier == 'quick' else 4)
     tables.report(S, 'C05', f5)
     S.assumptions += comments.ASSUMPTIONS + lists.ASSUMPTIONS
